@@ -9,8 +9,13 @@ claimed = {
  "C02": dict(
    text=("One mode-parity mechanism is under contract: the address the timing coalescer uses for a FLAT/GLOBAL access (defaultCoalescer.readFlatAddr) equals, for every instruction, lane and register contents, "
          "base + sign-extended 13-bit offset with base = the 64-bit VGPR pair or scalar base + zero-extended 32-bit VGPR in SADDR mode, which is the formula of emu.ALUImpl.flatAddrWithScalar and of the ISA. "
-         "The execution units share the emulator's ALU by construction (cu.Builder). Not under contract: lane-ID and SGPR initialisation parity (initWfRegs vs initRegisters), load write-back, scalar loads through the memory system, LDS binding, cache flush before copies."),
-   note=(TB + "The emulator-side formula is transcribed into the contract, not mechanically extracted (the emulator's state interface is modelled differently under C03). Whole-program equivalence of the two modes needs program-level reasoning outside this technique."),
+         "The initial register image of a wavefront is under contract in both modes against one shared statement (/verif/spec/wfinit.gspec): emu.ComputeUnit.initWfRegs and cu.WfDispatcherImpl.initRegisters write the same scalar registers "
+         "(dispatch pointer, kernel-argument pointer, ceil-divided work-group counts, work-group ids) at the same offsets and give each of the 64 lanes the row-major coordinates of its flat id (separately in v0..v2, or packed into v0 for V5 code objects). "
+         "The LDS unit runs a wavefront's instruction on the shared ALU only after binding the ALU to that wavefront's own work-group LDS, and the emulator's FLAT handlers access memory only for active lanes with the lane's own address and data. "
+         "The execution units share the emulator's ALU by construction (cu.Builder). Not under contract: load write-back, scalar loads through the memory system, cache flush before copies, and the whole-program equivalence itself."),
+   note=(TB + "The emulator-side address formula is transcribed into the contract, not mechanically extracted (the emulator's state interface is modelled differently under C03). Whole-program equivalence of the two modes needs program-level reasoning outside this technique. "
+         "Register initialisation: mathematical integers with overflow obligations; work-group sizes <= 1024 per dimension, flat ids <= 1024, grid sizes <= 0xFFFF0000 are preconditions; the packed V5 word is compared as the same uninterpreted bit expression on both sides. "
+         "One genuine defect repaired (timing mode did not pack work-item ids for V5 code objects); two known findings, demonstrated on the real dispatcher in the thorough tier: timing mode reserves scalar registers for the unsupported queue pointer and private segment size, emulation does not."),
    design="5 (C02)", technique="deductive verification: WP-style VC generation over go/ssa + SMT (return-site obligation)"),
  "C03": dict(
    text=("Every scalar ALU handler of both ALUs (SOP1, SOP2, SOPC, SOPK, SOPP branches; 116 handlers) and the integer vector handlers of both ALUs (VOP2 integer/logic/shift/carry, VOP1 mov/not/bfrev, "
@@ -63,17 +68,21 @@ claimed = {
    text=("Under contract for all geometries (mathematical integers with an overflow obligation on every + - *): gridBuilderImpl.NextWG without a filter returns work-group coordinates in x-fastest order, "
          "each once, with current sizes equal to the clipped sizes (>= 1) and nil exactly when the cursor has left the grid; countWG without a filter equals ceil(X/wx)*ceil(Y/wy)*ceil(Z/wz); "
          "Driver.distributeWGToGPUs returns a non-decreasing range table starting at 0 and ending at or beyond the number of work-groups, and the per-GPU filter closure accepts exactly "
-         "the row-major flattened ids of its range. Not yet under contract: the filtered count/enumeration, spawnWorkItems/formWavefronts (functional), lane-ID register initialisation in both modes."),
+         "the row-major flattened ids of its range. Lane-id initialisation is under contract in both modes (emu.ComputeUnit.initWfRegs, cu.WfDispatcherImpl.initRegisters): all 64 lanes of a wavefront are visited and lane l receives the coordinates (x, y, z) with flat id = (z*SY + y)*SX + x, 0 <= x < SX, 0 <= y < SY; "
+         "the work-group counts written to the scalar registers are the ceiling quotients. Not yet under contract: the filtered count/enumeration, spawnWorkItems/formWavefronts (functional)."),
    note=(TB + "Assumed: fewer than 2^31 work-groups per dispatch, CU counts <= 65536, at most 4096 unified GPUs; NewWorkGroup and formWavefronts enter NextWG through trusted frame-only contracts; "
-         "the explicit guard 'not all wg allocated' is kept as a run-time check (its unreachability needs a prefix-sum argument). Suspect not yet decided: formWavefronts for partial work-groups whose row pitch does not divide 64 (DESIGN.md)."),
+         "the explicit guard 'not all wg allocated' is kept as a run-time check (its unreachability needs a prefix-sum argument). Suspect not yet decided: formWavefronts for partial work-groups whose row pitch does not divide 64 (DESIGN.md). The register-initialisation obligations are shared with C02 (same findings: V5 packing repaired, two SGPR-layout findings recorded)."),
    design="5 (C08)", technique="deductive verification: WP-style VC generation over go/ssa + SMT (integer mode with overflow obligations, loop invariants)"),
  "C06": dict(
    text=("For the integer vector handlers of the two ALUs that are under a per-lane ISA contract (VOP2, VOP1 mov/not/bfrev, VOPC and VOP3a compares, VOP3a arithmetic, VOP3b carry forms; see C03), lane independence and EXEC obedience follow from the contract itself: "
          "the 64-iteration lane loop is summarised by clause invariants proving that iteration i reads only lane i's operands and uniform operands, writes only lane i's destination cells "
          "and bit i of VCC/SDST, and does so only when EXEC bit i is set, with the lane result equal to a function of lane i's inputs that does not mention i. "
-         "Floating-point handlers, DS and FLAT handlers and the zero-annotation two-copy sweep of DESIGN.md are not built yet."),
+         "The remaining vector handlers of both ALUs (floating point, conversions, 64-bit forms: 108 handlers) carry lane-independence site obligations without a value specification: every register read in the lane loop reads the visited lane, every register write writes the visited lane, "
+         "only when its EXEC bit was set at instruction start, and the written value does not depend on loop-carried variables (loopfree). The FLAT load/store handlers of both ALUs access memory only for active lanes, with the lane's own address and data, and visit all 64 lanes. "
+         "DS handlers, SDWA/DPP forms and the designated cross-lane instructions (v_readfirstlane) are not under contract."),
    note=(TB + "Shares obligations with C03 (same contracts, tagged with both properties). The C03 value deviations of the v_addc/v_subb family (per-lane, not cross-lane) are outside the claim: "
-         "their lanes are exempted through scope lines in known_findings.txt, listed in the evidence assumptions."),
+         "their lanes are exempted through scope lines in known_findings.txt, listed in the evidence assumptions. "
+         "For the handlers without ISA contract, the step from the site obligations to 'the lane result is a function of the lane's own operands' uses the register-file contract of C07 (a write touches exactly the cells of its lane) and is argued in DESIGN.md, not machine-checked; floating-point operations are uninterpreted functions there."),
    design="5 (C06)", technique="deductive verification: lane-loop summarisation (Houdini-filtered clause invariants with bit/cell meta-lemmas) over go/ssa + SMT"),
  "C09": dict(
    text=("Under contract: the allocation masks of a compute unit (resourceMaskImpl.nextRegion/setStatus/convertStatus/statusCount: a returned region lies inside the mask and has the requested status, updates touch exactly the named units) and unitsOccupy (round-up); "
@@ -87,7 +96,8 @@ claimed = {
    text=("The default page allocator's per-device free list (deviceMemoryStateImpl) is under contract for page sizes 2^12..2^16: registering a device appends exactly the pages of "
          "[initialAddress, initialAddress+storageSize) in ascending order (count = storageSize >> log2PageSize, each address initialAddress + k*pageSize), pop returns and removes the head, "
          "push appends at the back, nothing else changes. memoryAllocatorImpl.removePage (Free/RemovePage) is proved to drop the page from the allocator's live-page map. "
-         "allocatePages/Remap/Distribute/migration, the buddy allocator and the virtual-address bookkeeping are not yet under contract."),
+         "allocatePages records every page it creates (also for a unified multi-GPU device, whose pages come from member GPUs) on the device whose physical range contains the page, with the requested process, size and consecutive virtual addresses (site obligations at the page-table insert). "
+         "Remap/Distribute/migration, the buddy allocator and the virtual-address bookkeeping are not yet under contract."),
    note=(TB + "Assumed: storage sizes are multiples of the page size and below 2^48; the akita page table is an external component (extern declarations); deviceIDByPAddr enters through a trusted contract "
          "(map iteration is not modelled). One genuine defect repaired (stale live-page entry after Free). Observed, not decided by a check: Driver.FreeMemory frees only the first page of a multi-page buffer."),
    design="5 (C10)", technique="deductive verification: WP-style VC generation over go/ssa + SMT (queue view of the free list, loop invariant with page-size case split)"),
@@ -116,7 +126,8 @@ claimed = {
          "an unmasked write hands over the request data, a masked write hands over exactly request bytes where the mask is set and the bytes just read elsewhere, for every length and mask); "
          "middleware.dispatchPending carries the order-preservation site obligation 'a request enters the bank pipeline directly only when the bank's delay queue is empty', which fails on the current code "
          "and is recorded as a known finding with a demonstration on the real component (a read overtakes an earlier write to the same address). "
-         "One-response-each, delay-queue/pending-list order preservation and the response contents against a flat memory are not decided."),
+         "Requests that cannot be dispatched and delayed items that cannot be released are re-queued in arrival order: each is appended, as it is visited, to the end of the one list that becomes the pending list / the bank's delay queue again, and an item handed to a pipeline is the one being visited (site obligations at the append and Accept sites of dispatchPending and tickDelayQueues). "
+         "One-response-each and the response contents against a flat memory are not decided."),
    note=(TB + "akita ports, pipelines, buffers, storage and address converters are external components (extern declarations: frame-only, results unconstrained; Storage.Read returns a fresh slice). "
          "Request interleavings over ticks are outside the technique; the finding's demonstration is run in the thorough tier."),
    design="5 (C17)", technique="deductive verification: WP-style VC generation over go/ssa + SMT (site obligations at call sites, loop invariant with entry-state reference)"),
